@@ -12,7 +12,7 @@ using namespace libcellml;
 
 struct Slot {
     CellmlElementType kind;
-    ModelPtr model; ComponentPtr comp; VariablePtr v1, v2; ResetPtr reset; UnitsPtr units; size_t index = 0; ImportSourcePtr imp;
+    ModelPtr model; ComponentPtr comp; VariablePtr v1, v2, a1, a2; ResetPtr reset; UnitsPtr units; size_t index = 0; ImportSourcePtr imp;
 };
 
 static std::vector<Slot> gSlots;
@@ -72,8 +72,10 @@ static void setIdDirect(const Slot &s, const std::string &id)
     }
 }
 
-static std::string assignIdVia(const AnnotatorPtr &a, const Slot &s)
+static std::string assignIdVia(const AnnotatorPtr &a, const Slot &s, bool alternate = false)
 {
+    if (alternate && s.kind == CellmlElementType::CONNECTION && s.a1 != nullptr) return a->assignId(s.a2, s.a1, CellmlElementType::CONNECTION);
+    if (alternate && s.kind == CellmlElementType::MAP_VARIABLES) return a->assignId(s.v2, s.v1, CellmlElementType::MAP_VARIABLES);
     switch (s.kind) {
     case CellmlElementType::MODEL: return a->assignId(s.model, CellmlElementType::MODEL);
     case CellmlElementType::ENCAPSULATION: return a->assignId(s.model, CellmlElementType::ENCAPSULATION);
@@ -128,10 +130,12 @@ static void walkComponent(const ComponentPtr &c)
             auto v2 = v1->equivalentVariable(e);
             auto c1 = owningComponent(v1), c2 = owningComponent(v2);
             Slot cs; cs.kind = CellmlElementType::CONNECTION; cs.v1 = v1; cs.v2 = v2;
-            visit(findOrAdd(cs, [&](const Slot &o) {
+            size_t ci = findOrAdd(cs, [&](const Slot &o) {
                 auto o1 = owningComponent(o.v1), o2 = owningComponent(o.v2);
                 return (o1 == c1 && o2 == c2) || (o1 == c2 && o2 == c1);
-            }));
+            });
+            gSlots[ci].a1 = v1; gSlots[ci].a2 = v2;     // the pair through which the connection was reached last
+            visit(ci);
             Slot ms; ms.kind = CellmlElementType::MAP_VARIABLES; ms.v1 = v1; ms.v2 = v2;
             visit(findOrAdd(ms, [&](const Slot &o) { return (o.v1 == v1 && o.v2 == v2) || (o.v1 == v2 && o.v2 == v1); }));
         }
@@ -174,6 +178,15 @@ static void computeShape(const ModelPtr &m)
     for (size_t c = 0; c < m->componentCount(); ++c) walkComponent(m->component(c));
     Slot es; es.kind = CellmlElementType::ENCAPSULATION; es.model = m;
     visit(findOrAdd(es, [&](const Slot &) { return true; }));
+}
+
+// the n-th (modulo) slot of a kind, or npos
+static size_t slotOfKind(int kind, size_t n)
+{
+    std::vector<size_t> idx;
+    for (size_t i = 0; i < gSlots.size(); ++i) if (int(gSlots[i].kind) == kind) idx.push_back(i);
+    if (idx.empty()) return size_t(-1);
+    return idx[n % idx.size()];
 }
 
 static std::string idsDump()
@@ -255,6 +268,15 @@ static std::string run(const hx::Sexp &e)
         else if (h == "assignall") res = annotator->assignAllIds() ? "b1" : "b0";
         else if (h == "assignids") res = annotator->assignIds(CellmlElementType(atoi(op[1].atom.c_str()))) ? "b1" : "b0";
         else if (h == "assignid") { size_t k = size_t(atol(op[1].atom.c_str())); res = k < gSlots.size() ? hx::H(assignIdVia(annotator, gSlots[k])) : "#"; }
+        // the same item addressed through another of its handles (the last variable pair of the connection, the pair reversed)
+        else if (h == "assignid2") { size_t k = size_t(atol(op[1].atom.c_str())); res = k < gSlots.size() ? hx::H(assignIdVia(annotator, gSlots[k], true)) : "#"; }
+        else if (h == "assignidk" || h == "assignid2k") {
+            size_t k = slotOfKind(atoi(op[1].atom.c_str()), size_t(atol(op[2].atom.c_str())));
+            res = k != size_t(-1) ? hx::H(assignIdVia(annotator, gSlots[k], h == "assignid2k")) : "#";
+        } else if (h == "editk") {
+            size_t k = slotOfKind(atoi(op[1].atom.c_str()), size_t(atol(op[2].atom.c_str())));
+            if (k != size_t(-1)) setIdDirect(gSlots[k], op[3].text());
+        }
         else if (h == "clearall") annotator->clearAllIds();
         else if (h == "item") { long k = slotOfItem(annotator->item(op[1].text())); res = k >= 0 ? "i" + std::to_string(k) : (k == -1 ? "none" : "unknown-object"); }
         else if (h == "count") res = "n" + std::to_string(annotator->itemCount(op[1].text()));
